@@ -549,7 +549,7 @@ impl Part for SingleThread {
         "single-thread"
     }
     fn cases(&self, tier: Tier) -> u32 {
-        tier.pick(12_000, 200_000)
+        tier.pick(30_000, 200_000)
     }
     fn strategy(&self, tier: Tier) -> BoxedStrategy<Case> {
         case_strategy(tier, false)
@@ -569,7 +569,7 @@ impl Part for MultiThread {
         "multi-thread"
     }
     fn cases(&self, tier: Tier) -> u32 {
-        tier.pick(500, 6000)
+        tier.pick(900, 6000)
     }
     fn strategy(&self, tier: Tier) -> BoxedStrategy<Case> {
         case_strategy(tier, true)
